@@ -189,11 +189,15 @@ func (fr *Frame) lookup(b *ssa.BasicBlock, x *ssa.Lookup, st *State, reach strin
 	}
 	m := x.X.Type().Underlying().(*types.Map)
 	kv, _, _ := vc.mapKeys(m)
-	key := vc.valTerm(fr.get(x.Index))
+	key := vc.mapKeyTerm(m, vc.valTerm(fr.get(x.Index)))
 	if isIface(m.Key()) && !isIface(x.Index.Type()) {
 		panic(unsupported("map with interface keys"))
 	}
 	present := vc.def("Bool", "present", vc.mapPresent(st, m, base.S, key))
+	if vc.quant == 0 {
+		_, _, kc := vc.mapKeys(m)
+		vc.assume(sImp(present, app("bvsge", vc.readCell(st, kc, base.S), bvConst(1, 64))))
+	}
 	val := sIte(present, fmt.Sprintf("(select %s %s)", vc.readCell(st, kv, base.S), key), vc.sorts().zero(m.Elem()))
 	var vt types.Type = m.Elem()
 	v := Val{T: vt, S: vc.def(vc.sorts().sortOf(vt), "mapval", val)}
@@ -213,7 +217,7 @@ func (fr *Frame) mapUpdate(b *ssa.BasicBlock, x *ssa.MapUpdate, st *State, reach
 	base := fr.get(x.Map)
 	m := x.Map.Type().Underlying().(*types.Map)
 	fr.safe("nilmap", reach, sNot(sEq(base.S, bvConst(0, 64))), x.Pos())
-	key := vc.valTerm(fr.get(x.Key))
+	key := vc.mapKeyTerm(m, vc.valTerm(fr.get(x.Key)))
 	val := vc.valTerm(fr.get(x.Value))
 	fr.frameCheckRef(b, base.S, "true", st, reach, x.Pos(), "mapupdate")
 	vc.mapStore(st, m, base.S, key, val)
@@ -232,6 +236,8 @@ func (vc *VC) mapDelete(st *State, m *types.Map, ref, key string) {
 	_, kd, kc := vc.mapKeys(m)
 	dom := vc.readCell(st, kd, ref)
 	present := vc.def("Bool", "present", fmt.Sprintf("(select %s %s)", dom, key))
+	// the counter is the number of keys: a map that holds a key holds at least one
+	vc.assume(sImp(present, app("bvsge", vc.readCell(st, kc, ref), bvConst(1, 64))))
 	vc.writeCell(st, kc, ref, sIte(present, app("bvsub", vc.readCell(st, kc, ref), bvConst(1, 64)), vc.readCell(st, kc, ref)))
 	vc.writeCell(st, kd, ref, fmt.Sprintf("(store %s %s false)", dom, key))
 }
@@ -264,8 +270,9 @@ func (fr *Frame) rangeNext(x *ssa.Next, st *State) {
 	k := vc.fresh(vc.sorts().sortOf(m.Key()), "rangekey")
 	vc.typingFacts(st, m.Key(), k)
 	// the key is present in the map as it is now (deleted keys are not visited)
-	vc.assume(sImp(ok, vc.mapPresent(st, m, ri.v.S, k)))
-	v := vc.def(vc.sorts().sortOf(m.Elem()), "rangeval", fmt.Sprintf("(select %s %s)", vc.readCell(st, kv, ri.v.S), k))
+	kk := vc.mapKeyTerm(m, k)
+	vc.assume(sImp(ok, vc.mapPresent(st, m, ri.v.S, kk)))
+	v := vc.def(vc.sorts().sortOf(m.Elem()), "rangeval", fmt.Sprintf("(select %s %s)", vc.readCell(st, kv, ri.v.S), kk))
 	vc.typingFacts(st, m.Elem(), v)
 	kt, vt := tup.At(1).Type(), tup.At(2).Type()
 	fr.vals[x] = Val{T: tup, Tup: []Val{{T: tup.At(0).Type(), S: ok}, {T: kt, S: k}, {T: vt, S: v}}}
@@ -316,7 +323,7 @@ func (fr *Frame) builtin(b *ssa.BasicBlock, name string, c *ssa.CallCommon, st *
 		m := c.Args[0].Type().Underlying().(*types.Map)
 		alt := st.clone()
 		fr.frameCheckRef(b, args[0].S, sNot(sEq(args[0].S, bvConst(0, 64))), st, reach, pos, "mapdelete")
-		vc.mapDelete(alt, m, args[0].S, vc.valTerm(args[1]))
+		vc.mapDelete(alt, m, args[0].S, vc.mapKeyTerm(m, vc.valTerm(args[1])))
 		mg := vc.mergeStates([]string{sNot(sEq(args[0].S, bvConst(0, 64)))}, []*State{alt, st})
 		*st = *mg
 		return nil
@@ -428,9 +435,12 @@ func (vc *VC) appendCore(st *State, et types.Type, s, tlen string, srcAt func(j 
 		vc.assume(fmt.Sprintf("(forall ((g_j (_ BitVec 64))) (! (=> (and (bvule %s g_j) (bvult g_j %s)) (= (select %s g_j) (ite (bvult g_j %s) (select %s g_j) %s))) :pattern ((select %s g_j))))",
 			off, at(n), appArr, base, sarr, srcAt("(bvsub g_j "+base+")"), appArr))
 	}
-	vc.assume(fmt.Sprintf("(forall ((g_j (_ BitVec 64))) (! (=> (and %s (not (and (bvule %s g_j) (bvult g_j %s)))) (= (select %s g_j) (select %s g_j))) :pattern ((select %s g_j))))",
-		inplace, base, at(n), appArr, sarr, appArr))
-	target := vc.def(refSort, "apptarget", sIte(inplace, app("g_sarr", s), newRef))
+	vc.assume(sImp(inplace, fmt.Sprintf("(forall ((g_j (_ BitVec 64))) (! (=> (not (and (bvule %s g_j) (bvult g_j %s))) (= (select %s g_j) (select %s g_j))) :pattern ((select %s g_j))))",
+		base, at(n), appArr, sarr, appArr)))
+	// a constant with a defining equation (not a macro): terms that mention the
+	// target, such as triggers over the new heap, then contain no if-then-else
+	target := vc.fresh(refSort, "apptarget")
+	vc.assume(sEq(target, sIte(inplace, app("g_sarr", s), newRef)))
 	vc.writeCell(st, key, target, appArr)
 	res := fmt.Sprintf("(g_mkslice %s %s %s %s)", target, off, n, sIte(inplace, app("g_scap", s), newCap))
 	return vc.def("g_Slice", "app", res)
